@@ -586,7 +586,7 @@ def gen_world(rng, tier, focus='C07'):
     pdef = {'C07': 0.22, 'C08': 0.10, 'C09': 0.25, 'C19': 0.35, 'C10': 0.08}.get(focus, 0.2)
     if rng.random() < 0.3:
         pdef = 0.0
-    specs = mibgen.gen_modules(rng, n, cycles=True, defects=pdef, smiv1=0.1)
+    specs = mibgen.gen_modules(rng, n, cycles=True, defects=pdef, smiv1=0.1, oiddefval=0.2)
     names = list(specs)
     scn = {'modules': specs, 'codegen': 'pysnmp' if rng.random() < 0.04 else 'json', 'files': {}}
     # several modules in one file
